@@ -1180,13 +1180,13 @@ class Interp:
         return items
 
     def st_If(self, st, env):
-        if self.truth(self.eval(st.test, env), f"if@{st.lineno}"):
+        if self.cond(st.test, env, f"if@{st.lineno}"):
             self.exec_block(st.body, env)
         else:
             self.exec_block(st.orelse, env)
 
     def st_Assert(self, st, env):
-        if not self.truth(self.eval(st.test, env), f"assert@{st.lineno}"):
+        if not self.cond(st.test, env, f"assert@{st.lineno}"):
             self.raise_("AssertionError", "", site=f"assert@{st.lineno}")
 
     def st_Raise(self, st, env):
@@ -1227,7 +1227,7 @@ class Interp:
         if handler is not None:
             return handler(self, st, env)
         n = 0
-        while self.truth(self.eval(st.test, env), f"while@{st.lineno}"):
+        while self.cond(st.test, env, f"while@{st.lineno}"):
             n += 1
             if n > self.max_unroll:
                 raise OutOfSubset(f"loop at line {st.lineno} needs an invariant (unrolled {n}x)")
@@ -1330,6 +1330,11 @@ class Interp:
         return DictObj(d)
 
     def ex_BoolOp(self, e, env):
+        if _boolean_valued(e):
+            try:
+                return self.peek_cond(e, env)
+            except Unsafe:
+                pass
         last = None
         if isinstance(e.op, ast.And):
             for x in e.values:
@@ -1350,7 +1355,12 @@ class Interp:
         return self.binop(e.op, self.eval(e.left, env), self.eval(e.right, env))
 
     def ex_IfExp(self, e, env):
-        if self.truth(self.eval(e.test, env), f"ifexp@{e.lineno}"):
+        if _boolean_valued(e):
+            try:
+                return self.peek_cond(e, env)
+            except Unsafe:
+                pass
+        if self.cond(e.test, env, f"ifexp@{e.lineno}"):
             return self.eval(e.body, env)
         return self.eval(e.orelse, env)
 
@@ -1520,6 +1530,121 @@ class Interp:
 
     def ex_Starred(self, e, env):
         raise OutOfSubset("starred expression")
+
+    # ---------------------------------------------------------------- fork-free conditions
+    def peek(self, e, env):
+        """Side-effect-free evaluation of a pure expression; raises Unsafe when the expression
+        could have an effect, raise, or fork the heap."""
+        if isinstance(e, ast.Constant):
+            return e.value
+        if isinstance(e, ast.Name):
+            try:
+                return env.lookup(e.id)
+            except KeyError:
+                if e.id in ("True", "False", "None"):
+                    return {"True": True, "False": False, "None": None}[e.id]
+                raise Unsafe()
+        if isinstance(e, ast.Attribute):
+            base = self.peek(e.value, env)
+            if isinstance(base, TupleObj) and e.attr in base.cls.ann:
+                return base.values[base.cls.ann.index(e.attr)]
+            if isinstance(base, Obj) and e.attr in base.cur:
+                return base.cur[e.attr]
+            raise Unsafe()
+        if isinstance(e, (ast.Compare, ast.BoolOp, ast.UnaryOp, ast.IfExp)):
+            return self.peek_cond(e, env)
+        raise Unsafe()
+
+    def _scalar(self, v):
+        return (
+            v is None
+            or v is NAN
+            or isinstance(v, (bool, int, float, Fraction, str, Num, IdStr))
+            or (z3.is_expr(v) and z3.is_bool(v))
+        )
+
+    def peek_cond(self, e, env):
+        """Truth value of a pure expression as python bool / z3 Bool, without forking."""
+        if isinstance(e, ast.BoolOp):
+            is_and = isinstance(e.op, ast.And)
+            acc = True if is_and else False
+            for x in e.values:
+                c = self.peek_cond(x, env)
+                if is_and:
+                    if c is False:
+                        return False
+                    acc = b_and(acc, c)
+                else:
+                    if c is True:
+                        return True
+                    acc = b_or(acc, c)
+            return acc
+        if isinstance(e, ast.UnaryOp) and isinstance(e.op, ast.Not):
+            return b_not(self.peek_cond(e.operand, env))
+        if isinstance(e, ast.Compare):
+            if len(e.ops) != 1:
+                raise Unsafe()
+            a = self.peek(e.left, env)
+            b = self.peek(e.comparators[0], env)
+            op = e.ops[0]
+            if isinstance(op, (ast.Is, ast.IsNot)):
+                if not (self._scalar(a) or isinstance(a, Obj)) or not (self._scalar(b) or isinstance(b, Obj)):
+                    raise Unsafe()
+                return self.compare(op, a, b)
+            if isinstance(op, (ast.Eq, ast.NotEq)):
+                if not (self._scalar(a) or isinstance(a, Obj)) or not (self._scalar(b) or isinstance(b, Obj)):
+                    raise Unsafe()
+                return self.compare(op, a, b)
+            if isinstance(op, (ast.Lt, ast.LtE, ast.Gt, ast.GtE)):
+                if _isnum(a) and _isnum(b) and not isinstance(a, bool) and not isinstance(b, bool):
+                    return self.compare(op, a, b)
+            raise Unsafe()
+        if isinstance(e, ast.IfExp):
+            c = self.peek_cond(e.test, env)
+            if c is True:
+                return self.peek_cond(e.body, env)
+            if c is False:
+                return self.peek_cond(e.orelse, env)
+            t = self.peek_cond(e.body, env)
+            f = self.peek_cond(e.orelse, env)
+            return z3.If(c, zbool(t), zbool(f))
+        v = self.peek(e, env)
+        return self.truth_nofork(v)
+
+    def truth_nofork(self, v):
+        if v is None:
+            return False
+        if isinstance(v, bool):
+            return v
+        if z3.is_expr(v) and z3.is_bool(v):
+            return v
+        if v is NAN:
+            return True
+        if isinstance(v, (int, float, Fraction)):
+            return v != 0
+        if isinstance(v, Num):
+            return v.v != 0
+        if isinstance(v, str):
+            return len(v) > 0
+        if isinstance(v, IdStr):
+            return True
+        if isinstance(v, (tuple,)):
+            return len(v) > 0
+        if isinstance(v, TupleObj):
+            return len(v.values) > 0
+        if isinstance(v, ListObj):
+            return len(v.items) > 0
+        if isinstance(v, Obj):
+            return self.obj_truth(v)
+        raise Unsafe()
+
+    def cond(self, e, env, label):
+        """Decide a branch condition: merged into one decision when the test is pure."""
+        try:
+            c = self.peek_cond(e, env)
+        except Unsafe:
+            return self.truth(self.eval(e, env), label)
+        return self.truth(c, label)
 
     # ---------------------------------------------------------------- isinstance
     def isinstance_(self, v, ci: ClassInfo):
@@ -1878,6 +2003,10 @@ class SymRange:
         self.lo, self.hi = lo, hi
 
 
+class Unsafe(Exception):
+    pass
+
+
 class SymComp(Exception):
     def __init__(self, it, gen, node):
         self.it, self.gen, self.node = it, gen, node
@@ -1959,6 +2088,21 @@ def _isinstance_builtin(I, v, name):
     if name == "dict":
         return isinstance(v, (DictObj, SymDict))
     raise OutOfSubset(f"isinstance with builtin {name}")
+
+
+def _boolean_valued(e):
+    """Syntactically boolean-valued expression (its value equals its truth value)."""
+    if isinstance(e, ast.Compare):
+        return True
+    if isinstance(e, ast.Constant):
+        return isinstance(e.value, bool)
+    if isinstance(e, ast.UnaryOp) and isinstance(e.op, ast.Not):
+        return True
+    if isinstance(e, ast.BoolOp):
+        return all(_boolean_valued(x) for x in e.values)
+    if isinstance(e, ast.IfExp):
+        return _boolean_valued(e.body) and _boolean_valued(e.orelse)
+    return False
 
 
 def _assigned_names(st):
